@@ -32,14 +32,28 @@ def _obj(x, label, uuid):
                          semantic_label=Label(lab, lab.value, []), velocity=(0.0, 0.0, 0.0), uuid=uuid)
 
 
-def _result(res, policy, pe="e", pg="g"):
+def _obj2d(px, label, uuid):
+    """a 16 x 16 px ROI on the front camera, shifted px pixels along x: centre distance = px exactly, IoU 2D = (16 - px) / (16 + px)"""
+    from perception_eval.common.label import AutowareLabel, Label
+    from perception_eval.common.object2d import DynamicObject2D
+    from perception_eval.common.schema import FrameID
+
+    lab = AutowareLabel[label]
+    return DynamicObject2D(unix_time=100, frame_id=FrameID.CAM_FRONT, semantic_score=0.5, semantic_label=Label(lab, lab.value, []),
+                           roi=(200 + int(px), 120, 16, 16), uuid=uuid)
+
+
+def _result(res, policy, pe="e", pg="g", dim="3d"):
     """Real DynamicObjectWithPerceptionResult for a case result (cached: CLEAR never mutates them)."""
     from perception_eval.evaluation.matching.object_matching import MatchingLabelPolicy
     from perception_eval.evaluation.result.object_result import DynamicObjectWithPerceptionResult
 
     e, el, g, gl, off = res
-    key = (pe, e, el, pg, g, gl, off, policy)
+    key = (pe, e, el, pg, g, gl, off, policy, dim)
     r = _cache.get(key)
+    if r is None and dim == "2d":
+        r = DynamicObjectWithPerceptionResult(_obj2d(off, el, f"{pe}{e}"), None if g is None else _obj2d(0, gl, f"{pg}{g}"), MatchingLabelPolicy[policy])
+        _cache[key] = r
     if r is None:
         est = _obj(16.0 + off / 8.0, el, f"{pe}{e}")
         gt = None if g is None else _obj(16.0, gl, f"{pg}{g}")
@@ -77,7 +91,7 @@ def _run_clear(case, entry, pe="e", pg="g", ren=None):
     frames = entry["frames"]
     if ren is not None:
         frames = [[[ren[0][r[0]], r[1], None if r[2] is None else ren[1][r[2]], r[3], r[4]] for r in f] for f in frames]
-    objs = [[_result(r, case["policy"], pe, pg) for r in f] for f in frames]
+    objs = [[_result(r, case["policy"], pe, pg, case.get("dim", "3d")) for r in f] for f in frames]
     c = CLEAR(objs, entry["num_gt"], _labels(entry["labels"]), _mode(case), list(entry["thresholds"]))
     out = {k: _fin(v) for k, v in c.results.items()}
     out["types"] = [type(c.tp).__name__, type(c.fp).__name__, type(c.id_switch).__name__]
@@ -140,7 +154,7 @@ class Undecided(Exception):
 
 def _value(case, res, fact):
     if case["mode"] == "center":
-        return res[4] / 8.0            # by construction, exact
+        return float(res[4]) if case.get("dim") == "2d" else res[4] / 8.0            # by construction, exact (2D: pixels)
     return fact[0]
 
 
@@ -326,8 +340,11 @@ def _entry(labels, thresholds, num_gt, frames, **kw):
     return d
 
 
-def _case(stream, mode, clears, policy="DEFAULT", via="CLEAR", ren=(3, 5)):
-    return {"stream": stream, "mode": mode, "policy": policy, "via": via, "clears": clears, "ren": list(ren)}
+def _case(stream, mode, clears, policy="DEFAULT", via="CLEAR", ren=(3, 5), dim="3d"):
+    d = {"stream": stream, "mode": mode, "policy": policy, "via": via, "clears": clears, "ren": list(ren)}
+    if dim != "3d":
+        d["dim"] = dim            # DynamicObject2D results with a ROI (tracking2d): centre distance in pixels, IoU 2D
+    return d
 
 
 def small_result_options(ids):
@@ -434,6 +451,9 @@ def gen_random(tier, rng):
     n = 110 if tier == "quick" else 1500
     for i in range(n):
         mode = rng.choice(["center"] * 5 + ["plane", "iou2d", "iou3d"])
+        dim = "2d" if i % 4 == 3 else "3d"
+        if dim == "2d":
+            mode = rng.choice(["center", "center", "iou2d"])       # the two scores a tracking2d evaluation computes
         labels = rng.choice(TARGET_SETS)
         pool = labels + (["TRUCK"] if rng.random() < 0.5 else []) + (["UNKNOWN"] if rng.random() < 0.3 else [])
         policy = rng.choice(["DEFAULT"] * 3 + ["ALLOW_ANY", "ALLOW_UNKNOWN"])
@@ -441,9 +461,11 @@ def gen_random(tier, rng):
         mr = rng.randint(0, 10 if tier == "quick" else 12)
         frames, ngt = gen_tracks(rng, nf, mr, pool, mode, unique=rng.random() < 0.8)
         thr = [_thr(mode, rng) for _ in labels]
+        if dim == "2d" and mode == "center":
+            thr = [rng.choice([4.0, 5.0, 8.0, 12.0]) for _ in labels]        # pixels: offsets 0-4 near, 8-24 far, 4 and 8 exactly on a threshold
         num_gt = sum(ngt.get(l, 0) for l in labels) if rng.random() < 0.9 else 0
-        out.append(_case("random-long", mode, [_entry(labels, thr, num_gt, frames)], policy=policy,
-                         ren=(rng.choice([1, 2, 3, 7]), rng.randint(0, 9))))
+        out.append(_case("random-long" + ("-2d" if dim == "2d" else ""), mode, [_entry(labels, thr, num_gt, frames)], policy=policy,
+                         ren=(rng.choice([1, 2, 3, 7]), rng.randint(0, 9)), dim=dim))
     return out
 
 
@@ -546,8 +568,11 @@ def gen_shapes(tier, rng):
         exp = {"fp": 0, "tp": ngt, "id_switch": {"perfect": 0, "new-id": 1, "swap": 2}[shape]}
         if shape == "perfect":
             exp["MOTA"] = None if ngt == 0 else 1.0
+        dim = "2d" if i % 4 == 1 else "3d"
+        if dim == "2d" and mode == "center":
+            thr = [4.0 for _ in labels]                  # pixels: the offsets 0-3 stay within
         out.append(_case("shape-" + shape, mode, [_entry(labels, thr, ngt, frames, expect=exp, shape=shape)],
-                         ren=(rng.choice([1, 2, 5]), rng.randint(0, 5))))
+                         ren=(rng.choice([1, 2, 5]), rng.randint(0, 5)), dim=dim))
     return out
 
 
@@ -596,13 +621,14 @@ class ClearCorr(Corr):
                 "observed": obs["clears"]}
 
     def distribution(self, cases, obs):
-        d = {"streams": {}, "modes": {}, "frames_max": 0, "results_max": 0, "with_switch": 0, "with_fp": 0, "mota_inf": 0, "motp_inf": 0,
+        d = {"streams": {}, "modes": {}, "objects_2d": 0, "frames_max": 0, "results_max": 0, "with_switch": 0, "with_fp": 0, "mota_inf": 0, "motp_inf": 0,
              "mota_clamped_to_0": 0, "non_unique_frames": 0, "multi_label": 0}
         for c, o in zip(cases, obs):
             if "clears" not in o:
                 continue
             d["streams"][c["stream"]] = d["streams"].get(c["stream"], 0) + 1
             d["modes"][c["mode"]] = d["modes"].get(c["mode"], 0) + 1
+            d["objects_2d"] += c.get("dim") == "2d"
             for en, oo in zip(c["clears"], o["clears"]):
                 d["frames_max"] = max(d["frames_max"], len(en["frames"]))
                 d["results_max"] = max([d["results_max"]] + [len(f) for f in en["frames"]])
@@ -777,7 +803,9 @@ class C05(Prop):
                   "from the real objects through public getters; their geometric meaning is C06's business.")
     rule = ("histories of real DynamicObjectWithPerceptionResult objects; exhaustive frame pairs over ids {0,1} (<=2 results), sampled "
             "3-4 frame histories over ids {0,1,2} (<=3 results), threshold/label/degenerate boundaries, tracker shapes (perfect, one new id, "
-            "one swap), random long tracker histories (2-40/60 frames, 0-10/12 results); non-trivial = at least one TP or FP counted; "
+            "one swap), random long tracker histories (2-40/60 frames, 0-10/12 results); a quarter of the long / shape histories are built from "
+            "DynamicObject2D results with a ROI (centre distance in pixels with offsets exactly on the threshold, IoU 2D); "
+            "non-trivial = at least one TP or FP counted; "
             "tracking glue: " + TC.RULE)
     assumptions = ["tp_metrics = TPMetricsAp (the default, the only one TrackingMetricsScore uses): TP value 1.0",
                    "len(target_labels) == len(matching_threshold_list) (asserted by TrackingMetricsScore)",
